@@ -164,6 +164,12 @@ class SymU:
     __eq__ = __ne__ = _bad
     __hash__ = None
 
+    def log(self):
+        """numpy's object-dtype loop for np.log calls this method on the element."""
+        if self._kind != "u" or self._lo != 0.0 or self._hi != 1.0:
+            raise UnsupportedUniformUse("log of %s" % self._kind)
+        return SymU(self._stream, "log")
+
     def flatten(self):
         return self
 
@@ -211,11 +217,12 @@ class Stream:
 
     def __init__(self, normal=None, gamma=None, exponential=None, laplace=None, uniform="symbolic",
                  decisions=None, normal_default=None):
-        self.normal = normal
-        self.gamma = gamma
-        self.exponential = exponential
-        self.laplace = laplace
-        self.uniform = uniform
+        # scripts are stored under sc_* names: the numpy-API methods below are called normal/gamma/...
+        self.sc_normal = normal
+        self.sc_gamma = gamma
+        self.sc_exponential = exponential
+        self.sc_laplace = laplace
+        self.sc_uniform = uniform
         self.decisions = decisions if decisions is not None else Decisions()
         self.normal_default = normal_default
         self.log = []
@@ -245,13 +252,13 @@ class Stream:
         n = int(np.prod(shape)) if shape != () else 1
         i = self._ni
         self._ni += 1
-        if callable(self.normal):
-            v = np.asarray(self.normal(n, i), dtype=float)
-        elif self.normal is not None and i < len(self.normal):
-            v = np.asarray(self.normal[i], dtype=float)
+        if callable(self.sc_normal):
+            v = np.asarray(self.sc_normal(n, i), dtype=float)
+        elif self.sc_normal is not None and i < len(self.sc_normal):
+            v = np.asarray(self.sc_normal[i], dtype=float)
         elif self.normal_default is not None:
             v = np.full(n, float(self.normal_default))
-        elif self.normal is None:
+        elif self.sc_normal is None:
             raise UnownedRandomness("normal request not owned: %r" % rec)
         else:
             raise ScriptExhausted("normal script exhausted at request %d: %r" % (i, rec))
@@ -284,13 +291,13 @@ class Stream:
 
     def _uniform_draw(self, rec, lo=0.0, hi=1.0):
         self.log.append(rec)
-        if self.uniform == "symbolic":
+        if isinstance(self.sc_uniform, str) and self.sc_uniform == "symbolic":
             return SymU(self, "u", float(lo), float(hi))
         i = self._counts.get("uniform", 0)
         self._counts["uniform"] = i + 1
-        if i >= len(self.uniform):
+        if i >= len(self.sc_uniform):
             raise ScriptExhausted("uniform script exhausted")
-        return lo + (hi - lo) * float(self.uniform[i])
+        return lo + (hi - lo) * float(self.sc_uniform[i])
 
     def rand(self, *shape):
         rec = {"kind": "uniform", "fn": "rand", "shape": list(shape)}
@@ -325,7 +332,7 @@ class Stream:
         rec = {"kind": "exponential", "scale": scale, "shape": list(shape)}
         self.log.append(rec)
         n = int(np.prod(shape)) if shape != () else 1
-        v = self._next("exponential", self.exponential, rec, n)
+        v = self._next("exponential", self.sc_exponential, rec, n)
         return v.reshape(shape) if shape != () else float(v[0]) if v.ndim else float(v)
 
     def gamma(self, shape, scale=1.0, size=None):
@@ -336,7 +343,7 @@ class Stream:
                "scale": np.array(scale, dtype=float, copy=True), "shape": list(sz)}
         self.log.append(rec)
         n = int(np.prod(sz)) if sz != () else 1
-        v = self._next("gamma", self.gamma, rec, n)
+        v = self._next("gamma", self.sc_gamma, rec, n)
         return v.reshape(sz) if sz != () else float(v.ravel()[0])
 
     def laplace(self, loc=0.0, scale=1.0, size=None):
@@ -345,7 +352,7 @@ class Stream:
                "scale": np.array(scale, dtype=float, copy=True), "shape": list(sz)}
         self.log.append(rec)
         n = int(np.prod(sz)) if sz != () else 1
-        v = self._next("laplace", self.laplace, rec, n)
+        v = self._next("laplace", self.sc_laplace, rec, n)
         return v.reshape(sz) if sz != () else float(v.ravel()[0])
 
     # -- installation ----------------------------------------------------------------------
